@@ -102,7 +102,7 @@ def register(reg, stubs, world):
         return [('fresh-dict', z3.And(V.is_obj(res), clsof(V.ref(res)) == eng.cid('dict'), V.ref(res) >= cx.st0.ghost['$ap0']
                                       if '$ap_before' not in out.st.ghost else V.ref(res) >= out.st.ghost['$ap_before'],
                                       V.is_dict(eng.val(out.st, res)))),
-                ('equal-to-policy-values-as-a-mapping', qforall([k], z3.Select(rm, k) == z3.Select(pv, k)))]
+                ('equal-to-policy-values-as-a-mapping', rm == pv)]
 
     def mapctx_inv(L):
         eng = L.eng
